@@ -21,7 +21,7 @@ ASSUMPTIONS = [
 ]
 PLAN = {
     "quick": {"shards": 8, "shard_timeout": 300, "case_timeout": 30, "steps": 4000, "runs": 100, "max_case_timeouts": 3},
-    "thorough": {"shards": 16, "shard_timeout": 3600, "case_timeout": 90, "steps": 400000, "runs": 15000, "max_case_timeouts": 10},
+    "thorough": {"shards": 16, "shard_timeout": 3600, "case_timeout": 90, "steps": 2000000, "runs": 75000, "max_case_timeouts": 10},
 }
 THRESHOLDS = {
     "quick": {"elitism_applications": 1400, "with_ties": 400, "minimising": 400, "iterator_inputs": 300, "multi_objective": 200, "generations_with_elitism_slot": 300, "runs": 50},
